@@ -54,6 +54,11 @@ pub enum Family {
     Types { depth: u32, members: u32, globals: u32, arrays: bool },
     /// No depth at all: about `tokens` tokens of flat declarations (size control).
     Flat { functions: u32, structs: u32, bindings: u32 },
+    /// Chain of override (kind 0) or const (kind 1) declarations, each initialised from the
+    /// previous one `fan` times; the last one is used as a workgroup size and in an entry point.
+    Decls { depth: u32, fan: u32, kind: u8 },
+    /// Breadth instead of depth: many entry points x many globals x many members x vertex inputs.
+    Wide { entries: u32, globals: u32, members: u32, vertex_structs: u32 },
 }
 
 impl Family {
@@ -73,6 +78,9 @@ impl Family {
             Family::Types { arrays: false, .. } => "nested_structs",
             Family::Types { arrays: true, .. } => "nested_struct_arrays",
             Family::Flat { .. } => "flat_control",
+            Family::Decls { kind: 0, .. } => "override_chain",
+            Family::Decls { .. } => "const_chain",
+            Family::Wide { .. } => "wide",
         }
     }
 
@@ -81,9 +89,11 @@ impl Family {
             Family::Chain { depth, .. }
             | Family::Diamond { depth, .. }
             | Family::Dag { depth, .. }
+            | Family::Decls { depth, .. }
             | Family::Types { depth, .. } => *depth,
             Family::Fanout { .. } => 1,
             Family::Flat { .. } => 0,
+            Family::Wide { entries, globals, .. } => (*entries).min(*globals),
         }
     }
 
@@ -93,6 +103,7 @@ impl Family {
             Family::Chain { depth, .. }
             | Family::Diamond { depth, .. }
             | Family::Dag { depth, .. }
+            | Family::Decls { depth, .. }
             | Family::Types { depth, .. } => *depth = d,
             _ => {}
         }
@@ -326,6 +337,84 @@ pub fn source(family: &Family) -> String {
             }
             let _ = writeln!(out, "@compute @workgroup_size(1)\nfn cs_main() {{\n    let p = &tg0;\n}}");
         }
+        Family::Decls { depth, fan, kind } => {
+            let kw = if *kind == 0 { "override" } else { "const" };
+            let _ = writeln!(out, "{kw} dk0: u32 = 1u;");
+            for level in 1..=*depth {
+                let prev = format!("dk{}", level - 1);
+                let expr = match fan {
+                    0 | 1 => format!("{prev} + 0u"),
+                    2 => format!("{prev} * {prev}"),
+                    _ => format!("{prev} * {prev} + {prev} - {prev}"),
+                };
+                let _ = writeln!(out, "{kw} dk{level}: u32 = {expr};");
+            }
+            out.push_str(GLOBALS);
+            let _ = writeln!(
+                out,
+                "@compute @workgroup_size(dk{depth})\nfn cs_main() {{\n    acc_buf[0] = f32(dk{depth}) + params.x;\n}}"
+            );
+            let _ = writeln!(
+                out,
+                "@compute @workgroup_size(dk{depth}, dk{}, 1)\nfn cs_other() {{\n    acc_buf[1] = f32(dk{});\n}}",
+                depth / 2,
+                depth / 2
+            );
+        }
+        Family::Wide { entries, globals, members, vertex_structs } => {
+            let _ = writeln!(out, "struct Wm {{");
+            for m in 0..(*members).max(1) {
+                let _ = writeln!(out, "    wm{m}: vec4<f32>,");
+            }
+            let _ = writeln!(out, "}}");
+            for g in 0..*globals {
+                let _ = writeln!(
+                    out,
+                    "@group({}) @binding({}) var<storage, read> wg{g}: Wm;",
+                    g / 64,
+                    g % 64
+                );
+            }
+            let mut loc = 0;
+            for v in 0..*vertex_structs {
+                let _ = writeln!(out, "struct Wv{v} {{");
+                for f in 0..2 {
+                    let _ = writeln!(out, "    @location({loc}) wa{f}: vec4<f32>,");
+                    loc += 1;
+                }
+                let _ = writeln!(out, "}}");
+            }
+            let _ = writeln!(out, "fn touch_all() -> f32 {{\n    var t = 0.0;");
+            for g in 0..*globals {
+                let _ = writeln!(out, "    t = t + wg{g}.wm0.x;");
+            }
+            let _ = writeln!(out, "    return t;\n}}");
+            for e in 0..*entries {
+                match e % 3 {
+                    0 => {
+                        let params: Vec<String> =
+                            (0..*vertex_structs).map(|v| format!("wv{v}: Wv{v}")).collect();
+                        let _ = writeln!(
+                            out,
+                            "@vertex\nfn we{e}({}) -> @builtin(position) vec4<f32> {{\n    return vec4<f32>(touch_all());\n}}",
+                            params.join(", ")
+                        );
+                    }
+                    1 => {
+                        let _ = writeln!(
+                            out,
+                            "@fragment\nfn we{e}() -> @location(0) vec4<f32> {{\n    return vec4<f32>(touch_all());\n}}"
+                        );
+                    }
+                    _ => {
+                        let _ = writeln!(
+                            out,
+                            "@compute @workgroup_size(1)\nfn we{e}() {{\n    let t = touch_all();\n}}"
+                        );
+                    }
+                }
+            }
+        }
         Family::Flat { functions, structs, bindings } => {
             for s in 0..*structs {
                 let _ = writeln!(
@@ -520,6 +609,16 @@ pub fn systematic_families() -> Vec<Family> {
     }
     v.push(Family::Types { depth: 6, members: 8, globals: 16, arrays: false });
     v.push(Family::Types { depth: 7, members: 6, globals: 2, arrays: true });
+    for kind in 0..2u8 {
+        for (depth, fan) in [(4, 2), (16, 2), (32, 2), (48, 3), (64, 2), (64, 1)] {
+            v.push(Family::Decls { depth, fan, kind });
+        }
+    }
+    for (entries, globals, members, vertex_structs) in
+        [(3, 8, 4, 1), (12, 32, 16, 2), (30, 100, 64, 4), (60, 200, 200, 7), (90, 16, 300, 3)]
+    {
+        v.push(Family::Wide { entries, globals, members, vertex_structs });
+    }
     for (functions, structs, bindings) in [(10, 2, 2), (60, 10, 8), (200, 30, 16), (400, 60, 16)] {
         v.push(Family::Flat { functions, structs, bindings });
     }
@@ -575,6 +674,17 @@ pub fn random_family(rng: &mut Rng) -> Family {
                 arrays: rng.chance(300),
             }
         }
+        9 if rng.bool() => Family::Decls {
+            depth: rng.range(1, 64) as u32,
+            fan: rng.range(1, 3) as u32,
+            kind: rng.below(2) as u8,
+        },
+        9 if rng.bool() => Family::Wide {
+            entries: rng.range(1, 90) as u32,
+            globals: rng.range(1, 200) as u32,
+            members: rng.range(1, 300) as u32,
+            vertex_structs: rng.range(0, 7) as u32,
+        },
         _ => Family::Flat {
             functions: rng.range(1, 300) as u32,
             structs: rng.range(0, 40) as u32,
